@@ -533,9 +533,52 @@ def check_state_writers(ctx, F):
     (ctx.ok if cl and all(b.derived for b in cl) else ctx.bad)('R7', 'Clone is the derived field-wise copy', ANS, '#[derive(Clone)]' if cl else 'no Clone impl', key=key)
 
 
+def check_decode_iterator_overrides(ctx, F):
+    """The lazy decode iterators (decode_symbols, try_decode_symbols, decode_iid_symbols) pop one symbol per item they yield,
+    and every other way of driving an iterator (nth, skip, step_by, count, last, fold ..) is defined by the standard library
+    in terms of `next`, so it pops the skipped symbols too.  An override of one of those provided methods is a second
+    definition of "advance": the rule accepts it only if it does not discard items of the wrapped model iterator
+    (`models.nth(n)`, `skip`, `advance_by` .. drop models whose symbols then stay on the coder)."""
+    ALLOWED = {'next', 'size_hint'}
+    DISCARDING = ('::nth', '::skip', '::advance_by', '::last', '::count', '::nth_back', '::step_by')
+    n = 0
+    for b in F.bodies:
+        if b.promoted is not None or b.impl_trait != 'core::iter::Iterator' or b.dk != 'AssocFn' or not (b.self_adt or '').startswith('stream::') or '::tests::' in b.defpath:
+            continue
+        if 'Decode' not in (b.self_adt or '').split('::')[-1]:
+            continue
+        if b.name in ALLOWED:
+            continue
+        n += 1
+        ctx.touch(b)
+        key = 'R7/decode-iterator-override/' + b.defpath
+        role = 'a decode iterator advances only by decoding'
+        bodies = [b] + list(F.closures_of(b))
+        bad = None
+        calls_next = False
+        for body in bodies:
+            ev, paths = rules.evaluate(body)
+            for r in paths or []:
+                for e in r.events:
+                    if e['kind'] != 'call':
+                        continue
+                    if str(e['callee']).startswith('core::iter::') and str(e['callee']).endswith(DISCARDING) and any(a[0] == 'ref' and a[1][:2] == (1, 'deref') and len(a[1]) > 2 for a in e['args']):
+                        bad = '`%s` overrides the provided method and advances the wrapped iterator with %s: the items it skips are dropped without decoding their symbols, so everything after a `.skip()`, `.step_by()` or `.nth()` is decoded with the wrong models and from the wrong place of the stream' % (b.name, str(e['callee']).split('::')[-1])
+                    if e['callee'] == 'core::iter::Iterator::next' and any(a == ('ref', (1, 'deref'), True) for a in e['args']):
+                        calls_next = True
+        if bad:
+            ctx.bad('R7', role, b.defpath, bad, key=key, loc=rules.loc(b))
+        elif calls_next:
+            ctx.ok('R7', role, b.defpath, 'the override is written in terms of self.next()', key=key)
+        else:
+            ctx.unresolved('R7', role, b.defpath, 'an Iterator method other than next/size_hint is overridden in a form the rule does not read', key=key)
+    ctx.extra['decode_iterator_overrides'] = n
+
+
 def run(ctx):
     F = ctx.F
     check_override_inventory(ctx, F)
+    check_decode_iterator_overrides(ctx, F)
     loop_batch_check(ctx, F, 'encode_symbols', False)
     loop_batch_check(ctx, F, 'try_encode_symbols', True)
     check_iid_encode(ctx, F)
